@@ -50,6 +50,10 @@ DESC["C19"] = dict(technique=CASES + " (spec/Defrag.tla: DefragSpec = the proper
    text="Exhaustive: every nil / non-nil pattern of length 0..8 (quick) / 0..12 (thorough) x 4 scan limits x 4 index-option sets x nesting position, inside the property's domain; TLC checks the laws of DefragSpec and emits the expected tree; the real Defrag's resulting tree (raw slots through the verif hook) and Err() are compared. Deviations that equal the DefragAsBuilt prediction on an input of the listed class are the open known finding (KNOWN-FINDING, exit 0); anything else is a VIOLATION. Random longer patterns are classified by Check_Defrag.tla.",
    note="The package's Defrag is defective and cannot be repaired under the constraints (an existing test pins a wrong outcome); the check therefore passes with a KNOWN-FINDING line and still reports any behaviour that differs from both the property and the listed as-built outcome.")
 
+DESC["C20"] = dict(technique=CASES + " (spec/Reveal.tla: the specification is a SET of allowed results, membership is checked)", design_ref="DESIGN.md section 4 C20",
+   text="Reach(t), the closure of the single allowed rewrite, is computed by TLC for ~15k (quick) trees; for every member TLC proves leaf-sequence preservation, non-growing depth, survival of parenthetical and NOT stacks and equality of the fully-unwrapped normal form; the real Reveal, executed under a watchdog on trees with mutex-enabled nodes, must return a member (a hang is a deadlock violation). Random deeper trees are validated by Check_Reveal.tla.",
+   note="The property constrains what Reveal may do, not how much it must do: a Reveal that unwraps less is accepted. Exhaustive only within the stated families.")
+
 def main():
     commits = subprocess.run(["git", "-C", "/repo", "log", "--format=%h %s", "--grep=^verif:"],
                              stdout=subprocess.PIPE, text=True).stdout.strip().splitlines()
